@@ -48,10 +48,12 @@ impl Kanata {
                 };
                 self.cur_keys.retain(|k| *k != kc);
             }
+            self.cur_keys.extend(self.unmodded_keys.iter());
         }
         if !self.unshifted_keys.is_empty() {
             self.cur_keys
                 .retain(|k| !matches!(k, KeyCode::LShift | KeyCode::RShift));
+            self.cur_keys.extend(self.unshifted_keys.iter());
         }
         self.overrides
             .override_keys(&mut self.cur_keys, &mut self.override_states);
@@ -65,10 +67,7 @@ impl Kanata {
                 log::debug!("key outs for active layer-while-held: {outputs_for_key:?};");
                 for osc in outputs_for_key.iter().rev().copied() {
                     let kc = osc.into();
-                    if self.cur_keys.contains(&kc)
-                        || self.unshifted_keys.contains(&kc)
-                        || self.unmodded_keys.contains(&kc)
-                    {
+                    if self.cur_keys.contains(&kc) {
                         log::debug!("repeat    {:?}", KeyCode::from(osc));
                         if let Err(e) = write_key(&mut self.kbd_out, osc, KeyValue::Repeat) {
                             bail!("could not write key {e:?}")
@@ -94,10 +93,7 @@ impl Kanata {
             log::debug!("key outs for default layer: {outputs_for_key:?};");
             for osc in outputs_for_key.iter().rev().copied() {
                 let kc = osc.into();
-                if self.cur_keys.contains(&kc)
-                    || self.unshifted_keys.contains(&kc)
-                    || self.unmodded_keys.contains(&kc)
-                {
+                if self.cur_keys.contains(&kc) {
                     log::debug!("repeat    {:?}", KeyCode::from(osc));
                     if let Err(e) = write_key(&mut self.kbd_out, osc, KeyValue::Repeat) {
                         bail!("could not write key {e:?}")
@@ -112,10 +108,7 @@ impl Kanata {
         // and have delegated to defsrc handling.
         log::debug!("checking defsrc output");
         let kc = event.code.into();
-        if self.cur_keys.contains(&kc)
-            || self.unshifted_keys.contains(&kc)
-            || self.unmodded_keys.contains(&kc)
-        {
+        if self.cur_keys.contains(&kc) {
             if let Err(e) = write_key(&mut self.kbd_out, event.code, KeyValue::Repeat) {
                 bail!("could not write key {e:?}");
             }
